@@ -1626,13 +1626,17 @@ class BaseEvolutionOperations(object):
         if not old_indexes:
             old_indexes = []
 
+        # Two definitions are the same index whatever order their keys were
+        # written in.
         old_indexes_map = {
-            repr(index_info): index_info
+            repr(sorted(six.iteritems(index_info), key=lambda pair: pair[0])):
+            index_info
             for index_info in old_indexes
         }
 
         new_indexes_map = {
-            repr(index_info): index_info
+            repr(sorted(six.iteritems(index_info), key=lambda pair: pair[0])):
+            index_info
             for index_info in new_indexes
         }
 
